@@ -26,8 +26,14 @@ class FuncWrapper:
         self.__call__ = func
 
     def __eq__(self, other):
+        # A stub of a failed request is never resolved. It must not be equal to the stub of a later request,
+        # otherwise a cached closure referring to the unresolved stub is reused.
         if isinstance(other, FuncWrapper):
-            return self._key == other._key
+            return self is other or (
+                self._key == other._key
+                and self.__call__ is not None
+                and self.__call__ is other.__call__
+            )
         return NotImplemented
 
     def __hash__(self):
